@@ -52,7 +52,7 @@ type Case struct {
 
 func genCase(t *rapid.T) Case {
 	ex := 0
-	o := plyref.Opts{ExcludeAsciiUcharScalar: true, Excluded: &ex, Wide: true}
+	o := plyref.Opts{ExcludeAsciiUcharScalar: true, Excluded: &ex, Wide: true, UVCount: true, Trailing: true}
 	if rapid.IntRange(0, 11).Draw(t, "manyVerts") == 0 {
 		o.MinVerts, o.MaxVerts = 100, 400 // indices beyond 127 / 255
 	}
@@ -154,6 +154,13 @@ func runCase(c Case, o *vh.Obs) *vh.Failure {
 		o.NonTrivial()
 	}
 	o.Class("format/" + f.Format)
+	if f.Trailing > 0 {
+		o.Class(fmt.Sprintf("element-after-the-last-one-read/%d/faces=%v", f.Trailing, f.HasFaces))
+		o.NonTrivial()
+	}
+	if f.UVCountT != "" {
+		o.Class("texcoord-count-type/" + f.UVCountT)
+	}
 	if f.Props[0].Name != "x" {
 		o.Class("position-not-first")
 	}
